@@ -11,7 +11,17 @@
    The routing decision of a pipeline (does a given-up batch go to a dead queue, and to which) must be a function of ITS
    OWN configuration, whatever was constructed before or after it.
 
-   Mechanism switch (TRUE = as in the code):
+   Shape of the `deadqueue` section of a pipeline's output (cfgs[p]):
+     "none"  no section          "empty"  deadqueue: {}          "type"  deadqueue: {type: X}   (all options default)
+     a config name (DqConfigs)   deadqueue: {type: X, name: <config>}
+   The code sets a dead queue up iff the section is a non-empty map (`len(deadqueueMap) > 0`, evaluated on the section
+   AS WRITTEN, before the type key is deleted for decoding); an empty section is silently the same as none -- that is
+   what the code does today, stated here and checked on the real code.  So "declared" = the section names a type.
+
+   Mechanism switches (TRUE = as in the code):
+     M_LenCheckedBeforeTypeRemoved   the length check sees the section as written.  FALSE = the type key is deleted
+                         first (Del mutates the very map len() inspects): a type-only section looks empty and the
+                         dead queue is silently dropped -- never set up, no error.
      M_DeadQueueOnCopy   `infoCopy.DeadQueueInfo = deadqueueInfo`.  FALSE = `info.DeadQueueInfo = deadqueueInfo`: stored on
                          the shared registry entry, so every pipeline constructed LATER with the same output type
                          inherits it through the copy.
@@ -23,7 +33,7 @@ EXTENDS Integers, Sequences, FiniteSets, TLC, Json
 
 CONSTANTS MaxPipelines,    \* 2..MaxPipelines pipelines, all with the same output type and dead-queue type
           DqConfigs,       \* dead-queue configurations, e.g. {"a", "b"}; "none" = no deadqueue section
-          M_DeadQueueOnCopy, D_DqConfigOnRegistryEntry
+          M_DeadQueueOnCopy, M_LenCheckedBeforeTypeRemoved, D_DqConfigOnRegistryEntry
 
 VARIABLES cfgs,            \* the case: per pipeline its deadqueue section ("none" or a config)
           order,           \* the case: construction order (a permutation of the pipelines)
@@ -36,11 +46,20 @@ VARIABLES cfgs,            \* the case: per pipeline its deadqueue section ("non
 
 vars == <<cfgs, order, step, regOutDq, regDqConfig, hasDq, ownDqConfig, started>>
 
+Shapes      == {"none", "empty", "type"} \cup DqConfigs
+Keys(c)     == CASE c = "none" -> {} [] c = "empty" -> {} [] c = "type" -> {"type"} [] OTHER -> {"type", "name"}
+IsMap(c)    == c # "none"
+Declares(c) == "type" \in Keys(c)                 \* the section names a dead queue
+\* getStaticInfo: `if deadqueueMap != nil { if len(deadqueueMap) > 0 { ...set up... } }`
+SetsUp(c)   == IsMap(c) /\ (IF M_LenCheckedBeforeTypeRemoved THEN Keys(c) ELSE Keys(c) \ {"type"}) # {}
+\* the config the dead queue is started with: the named one, or all defaults for a type-only section
+ConfigOf(c) == IF c = "type" THEN "default" ELSE c
+
 Perms(S) == {f \in [1..Cardinality(S) -> S] : \A i, j \in 1..Cardinality(S) : f[i] = f[j] => i = j}
 
 Init ==
   /\ \E n \in 2..MaxPipelines :
-       /\ cfgs \in [1..n -> DqConfigs \cup {"none"}]
+       /\ cfgs \in [1..n -> Shapes]
        /\ order \in Perms(1..n)
   /\ step = 0 /\ regOutDq = FALSE /\ regDqConfig = "unset"
   /\ hasDq = [p \in {} |-> FALSE] /\ ownDqConfig = [p \in {} |-> "none"]
@@ -50,14 +69,14 @@ Init ==
 Construct ==
   /\ step < Len(order)
   /\ LET p == order[step + 1]
-         declares == cfgs[p] # "none"
+         declares == SetsUp(cfgs[p])
          \* the registry entry after the deadqueue section was processed
          outDq == IF declares /\ ~M_DeadQueueOnCopy THEN TRUE ELSE regOutDq
      IN /\ regOutDq' = outDq
-        /\ regDqConfig' = IF declares THEN cfgs[p] ELSE regDqConfig          \* deadqueueInfo.Config = config
+        /\ regDqConfig' = IF declares THEN ConfigOf(cfgs[p]) ELSE regDqConfig  \* deadqueueInfo.Config = config
         \* infoCopy := *info; with the mechanism the DeadQueueInfo is put on the copy only
         /\ hasDq' = [q \in DOMAIN hasDq \cup {p} |-> IF q = p THEN (outDq \/ (declares /\ M_DeadQueueOnCopy)) ELSE hasDq[q]]
-        /\ ownDqConfig' = [q \in DOMAIN ownDqConfig \cup {p} |-> IF q = p THEN cfgs[p] ELSE ownDqConfig[q]]
+        /\ ownDqConfig' = [q \in DOMAIN ownDqConfig \cup {p} |-> IF q = p THEN ConfigOf(cfgs[p]) ELSE ownDqConfig[q]]
   /\ step' = step + 1
   /\ UNCHANGED <<cfgs, order, started>>
 
@@ -75,21 +94,22 @@ RoutesToDq(p)  == hasDq[p]
 DqConfigOf(p)  == IF D_DqConfigOnRegistryEntry THEN regDqConfig ELSE ownDqConfig[p]
 
 \* a pipeline has a dead queue exactly if ITS configuration declares one
-DeadQueueIffDeclared == \A p \in DOMAIN hasDq : RoutesToDq(p) <=> (cfgs[p] # "none")
+DeadQueueIffDeclared == \A p \in DOMAIN hasDq : RoutesToDq(p) <=> Declares(cfgs[p])
 
 \* ... and it is the one it declared (STRICT; fails under the named deviation)
-DeadQueueIsOwn == started => \A p \in DOMAIN hasDq : (cfgs[p] # "none") => DqConfigOf(p) = cfgs[p]
+DeadQueueIsOwn == started => \A p \in DOMAIN hasDq : Declares(cfgs[p]) => DqConfigOf(p) = ConfigOf(cfgs[p])
 
 \* what the code really guarantees under the deviation: every dead queue runs with the config of the pipeline that
 \* declared a dead queue and was constructed last
-LastDeclared == LET idx == {i \in 1..Len(order) : cfgs[order[i]] # "none"} IN
-                IF idx = {} THEN "unset" ELSE cfgs[order[CHOOSE i \in idx : \A j \in idx : j <= i]]
+LastDeclared == LET idx == {i \in 1..Len(order) : Declares(cfgs[order[i]])} IN
+                IF idx = {} THEN "unset" ELSE ConfigOf(cfgs[order[CHOOSE i \in idx : \A j \in idx : j <= i]])
 DeadQueueIsOwnModuloDeviation ==
-  started => \A p \in DOMAIN hasDq : (cfgs[p] # "none") =>
-     DqConfigOf(p) = (IF D_DqConfigOnRegistryEntry THEN LastDeclared ELSE cfgs[p])
+  started => \A p \in DOMAIN hasDq : Declares(cfgs[p]) =>
+     DqConfigOf(p) = (IF D_DqConfigOnRegistryEntry THEN LastDeclared ELSE ConfigOf(cfgs[p]))
 
 ExportRec == [cfgs |-> cfgs, order |-> order,
-              model_dq_config |-> [p \in DOMAIN cfgs |-> IF cfgs[p] = "none" THEN "none" ELSE DqConfigOf(p)]]
+              declared |-> [p \in DOMAIN cfgs |-> Declares(cfgs[p])],
+              model_dq_config |-> [p \in DOMAIN cfgs |-> IF ~Declares(cfgs[p]) THEN "none" ELSE DqConfigOf(p)]]
 Export == started => PrintT(ToJson(ExportRec))
 
 =============================================================================
